@@ -399,6 +399,105 @@ fn lvl_name(nodes: &[Node], lp: &[usize]) -> String {
     name
 }
 
+// ---- struct types with more mandatory tagged fields than any shipped packet has (which is two):
+//      defined here with the real derive macro; the statement is about tagged fields of any packet type
+mod many {
+    use zvt::Zvt;
+    #[derive(Zvt, PartialEq, Debug, Clone)]
+    pub struct M3 {
+        #[zvt_bmp(number = 0x01)]
+        pub a: u8,
+        #[zvt_bmp(number = 0x02)]
+        pub b: u8,
+        #[zvt_bmp(number = 0x03)]
+        pub c: u8,
+        #[zvt_bmp(number = 0x04)]
+        pub d: Option<u8>,
+    }
+    #[derive(Zvt, PartialEq, Debug, Clone)]
+    pub struct M5 {
+        #[zvt_bmp(number = 0x49)]
+        pub a: u8,
+        #[zvt_bmp(number = 0x19)]
+        pub b: u8,
+        #[zvt_bmp(number = 0x87)]
+        pub c: u8,
+        #[zvt_bmp(number = 0x22)]
+        pub d: u8,
+        #[zvt_bmp(number = 0x04)]
+        pub e: u8,
+    }
+}
+
+/// `groups`: (tag, mandatory, encoded group) of a value of T in declaration order
+fn many_case<T: zvt::ZvtSerializer + PartialEq + std::fmt::Debug>(name: &str, value: &T, groups: &[(u16, bool, Vec<u8>)], acc: &mut Acc)
+where
+    zvt_builder::encoding::Default: zvt_builder::encoding::Encoding<T>,
+{
+    let n = groups.len();
+    let decode = |bytes: &[u8]| guarded(|| T::zvt_deserialize(bytes).map(|(v, r)| (format!("{v:?}"), r.len())));
+    let want = format!("{value:?}");
+    for perm in permutations(n) {
+        let bytes: Vec<u8> = perm.iter().flat_map(|i| groups[*i].2.clone()).collect();
+        acc.count("cases", 1);
+        acc.count("many_mandatory_cases", 1);
+        let key = format!("c13/many-mandatory/{name}/perm={perm:?}");
+        match decode(&bytes) {
+            Ok(Ok((d, 0))) if d == want => acc.count("w_many_permuted", 1),
+            other => acc.violation(viol(key.clone(), format!("struct {name} with {n} tagged fields in the order {perm:?} ({}): expected {want}, got {other:?}", hex(&bytes)), n as u64)),
+        }
+        // a duplicate of every group at every position
+        for g in 0..n {
+            for at in 0..=n {
+                let mut order: Vec<usize> = perm.clone();
+                order.insert(at, g);
+                let bytes: Vec<u8> = order.iter().flat_map(|i| groups[*i].2.clone()).collect();
+                acc.count("cases", 1);
+                acc.count("many_mandatory_cases", 1);
+                match decode(&bytes) {
+                    Ok(Err(ZVTError::DuplicateTag(Tag(t)))) if t == groups[g].0 => acc.count("w_many_duplicate", 1),
+                    other => acc.violation(viol(format!("{key}/dup={g}@{at}"), format!("struct {name}: groups in the order {order:?} ({}), tag {:#x} occurs twice: expected DuplicateTag naming it, got {other:?}", hex(&bytes), groups[g].0), n as u64)),
+                }
+            }
+        }
+        // every non-empty subset of the mandatory groups removed
+        for mask in 1u32..(1 << n) {
+            if (0..n).any(|i| mask & (1 << i) != 0 && !groups[i].1) {
+                continue;
+            }
+            let bytes: Vec<u8> = perm.iter().filter(|i| mask & (1 << **i) == 0).flat_map(|i| groups[*i].2.clone()).collect();
+            let mut missing: Vec<u16> = (0..n).filter(|i| mask & (1 << *i) != 0).map(|i| groups[i].0).collect();
+            missing.sort();
+            acc.count("cases", 1);
+            acc.count("many_mandatory_cases", 1);
+            match decode(&bytes) {
+                Ok(Err(ZVTError::MissingRequiredTags(ts))) => {
+                    let mut got: Vec<u16> = ts.iter().map(|t| t.0).collect();
+                    got.sort();
+                    if got == missing {
+                        acc.count("w_many_missing", 1);
+                    } else {
+                        acc.violation(viol(format!("{key}/missing={mask:b}"), format!("struct {name}: groups {perm:?} without the mandatory tags {missing:x?} ({}): the error names {got:x?}", hex(&bytes)), n as u64));
+                    }
+                }
+                other => acc.violation(viol(format!("{key}/missing={mask:b}"), format!("struct {name}: groups {perm:?} without the mandatory tags {missing:x?} ({}): expected MissingRequiredTags naming all of them, got {other:?}", hex(&bytes)), n as u64)),
+            }
+        }
+    }
+}
+
+fn many_mandatory(acc: &mut Acc) {
+    use many::*;
+    for (a, b, c) in [(1u8, 2u8, 3u8), (0, 0, 0), (255, 3, 1), (2, 1, 2)] {
+        let v = M3 { a, b, c, d: Some(9) };
+        many_case("M3+optional", &v, &[(1, true, vec![1, a]), (2, true, vec![2, b]), (3, true, vec![3, c]), (4, false, vec![4, 9])], acc);
+        let v = M3 { a, b, c, d: None };
+        many_case("M3", &v, &[(1, true, vec![1, a]), (2, true, vec![2, b]), (3, true, vec![3, c])], acc);
+    }
+    let v = M5 { a: 1, b: 0x49, c: 0x19, d: 0x04, e: 0x87 };
+    many_case("M5", &v, &[(0x49, true, vec![0x49, 1]), (0x19, true, vec![0x19, 0x49]), (0x87, true, vec![0x87, 0x19]), (0x22, true, vec![0x22, 0x04]), (0x04, true, vec![0x04, 0x87])], acc);
+}
+
 pub fn run(run: &RunInfo) -> Summary {
     let table = shipped();
     let types = table.all();
@@ -449,6 +548,13 @@ pub fn run(run: &RunInfo) -> Summary {
             check_value(&cx, &presence_value(&table, ty, sub, si % 3), true, acc);
         }
     });
+    if !skip_for_replay(run, "c13/many-mandatory/") {
+        let part = par_for(1, |_, acc| many_mandatory(acc));
+        acc.merge(part);
+        if acc.get("w_many_permuted") > 0 && acc.get("w_many_duplicate") > 0 && acc.get("w_many_missing") > 0 {
+            acc.witness("structs with three and five mandatory tagged fields: every order, duplicate and missing subset");
+        }
+    }
     for (w, c) in [
         ("permuted groups decoded to the same value", "perm_ok"),
         ("duplicates reported with their tag", "dup_reported"),
@@ -476,9 +582,10 @@ pub fn run(run: &RunInfo) -> Summary {
         transitions: acc.get("calls"),
         traces_validated: cases,
         distinct_nontrivial: acc.get("perm_ok") + acc.get("dup_reported") + acc.get("missing_reported") + acc.get("foreign_rejected") + acc.get("foreign_prefix_value") + acc.get("dt_perm_ok") + acc.get("dt_dup_reported") + acc.get("dt_missing_rejected"),
-        rule: format!("55 shipped types x (all-present rows at every nesting level + every subset of <= {smax} present tagged top-level fields): all permutations of the tagged groups of a level up to {pmax} groups (adjacent transpositions, reversal, rotations above), every non-repeated group duplicated at every position, every non-empty subset of mandatory groups removed, a foreign group (one- and two-byte tag unknown to the whole type, 0..2 payload bytes) at every position; inside every date/time value every sequence of 0..4 parts over (date, time, a second date, a second time). distinct_nontrivial = edited inputs on which the real decoder gave the demanded answer"),
+        rule: format!("55 shipped types x (all-present rows at every nesting level + every subset of <= {smax} present tagged top-level fields): all permutations of the tagged groups of a level up to {pmax} groups (adjacent transpositions, reversal, rotations above), every non-repeated group duplicated at every position, every non-empty subset of mandatory groups removed, a foreign group (one- and two-byte tag unknown to the whole type, 0..2 payload bytes) at every position; two struct types defined with the real derive macro that have three (plus one optional) and five mandatory tagged fields - more than any shipped packet: all permutations, a duplicate of every group at every position, every non-empty subset of the mandatory groups removed in every order of the rest; inside every date/time value every sequence of 0..4 parts over (date, time, a second date, a second time). distinct_nontrivial = edited inputs on which the real decoder gave the demanded answer"),
         exhaustive: true,
         required_witnesses: vec![
+            "structs with three and five mandatory tagged fields: every order, duplicate and missing subset".into(),
             "permuted groups decoded to the same value".into(),
             "duplicates reported with their tag".into(),
             "missing mandatory tags reported".into(),
